@@ -1,21 +1,29 @@
 import QProofs.C05
 import QGen.C05
 import QProps.C04
+import QProofs.C05Psd
 /-!
 # C05 — physical projection (Dykstra): property theorems about `QModel.C05`
 
-Everything is over an arbitrary linearly ordered field `K` (so literally for the executed instance `Rat`), for all
-vector lengths `N` (all types, dimensions, outcome counts), all sweep counts and both projection orders (the order only
-decides which projection is `P1` and which is `P2`).  The two constraint sets are abstract predicates `A`, `B` on
-parameter vectors and the projections are characterised by their variational inequality (`IsProj`), which QProps.C04
-proves for the equality projections and (`_partial`) for eigenvalue clipping.
+Everything except the last section is over an arbitrary linearly ordered field `K` (so literally for the executed instance `Rat`),
+for all vector lengths `N`, all sweep counts and both projection orders (the order only decides which projection is `P1` and which
+is `P2`).  The two constraint sets are abstract predicates `A`, `B` on parameter vectors and the projections are characterised by
+their variational inequality (`IsProj`).  `IsProj` instances proved: State equality (`isProj_state_eq`), Gate equality on the flat
+vector (`isProj_gate_eq`), the inequality projection for a complete basis over ℝ (`isProj_psd`: State, and Gate via the Choi basis);
+for Povm / MProcess (equality: C04 `povm_/mprocess_projEq_mem/_orth`; inequality: C04 `blocks_nearest_partial`) the same facts are
+proved in C04 on the shaped objects but not repackaged as `IsProj` on the flat vector.
+**Bridge to the executed loop:** the driver replays a run with per-sweep constants in place of the inequality projection;
+`dyk_run_congr` (a run depends on the projections only through the arguments actually passed) and `dyk_run_tapped` (constants from
+exact eigen-decompositions = the genuine projection `psdProj`) make the `IsProj` theorems statements about that executed run.
 
-**Proved about convergence** (section C05.7/8): the Boyle–Dykstra potential decreases by at least the stopping value as coded in
-every sweep, hence the iterates stay bounded, the stopping values are summable, the loop as coded TERMINATES by its criterion
-within `n + 1` sweeps whenever `n·eps > ‖x₀ − z‖²` for a physical `z` (`dyk_terminates`), returns the iterate after
-min(first stop index, max_iteration − 1) + 1 sweeps (`dyk_run_returns_min`), and the returned point is physical up to `√eps`
-(`dyk_returned_physical`).  **Not proved:** that the stopped iterate is within a stated distance of the NEAREST physical
-point (strong convergence of Dykstra's sequence, Boyle–Dykstra); per run this is certified by the oracle.
+**Proved about convergence** (C05.7/8): the Boyle–Dykstra potential decreases by at least the stopping value as coded in every sweep,
+hence the iterates stay bounded, the stopping values are summable, the loop as coded TERMINATES by its criterion within `n + 1` sweeps
+whenever `n·eps > ‖x₀ − z‖²` for a physical `z` (`dyk_terminates`), returns the iterate after min(first stop index,
+max_iteration − 1) + 1 sweeps (`dyk_run_returns_min`), the returned point is physical up to `√eps` (`dyk_returned_physical`) and
+satisfies the nearest-point inequality up to `‖p‖·√eps` (`dyk_returned_approx_vi_partial`).
+**Not proved:** a bound on the DISTANCE of the stopped iterate to the nearest physical point (strong convergence of Dykstra's
+sequence); nearest point / order independence are exact statements only at fixed points (`…_partial`); object level = variable
+level is not a theorem (one loop in the model; oracle + correspondence only).
 -/
 open Finset
 namespace QM.C05
@@ -39,7 +47,7 @@ theorem total_init (x0 : Vec K N) : (⟨x0, Vec.zero, Vec.zero⟩ : St K N).tota
 
 /-- C05.1 `dyk_invariant`, whole run (induction over sweeps): every recorded state, before and after every sweep,
 satisfies `x_k + p_k + q_k = x_0`. -/
-theorem dyk_invariant_partial (eps : K) (P1 P2 : Nat → Vec K N → Vec K N) (maxIter : Nat) (x0 : Vec K N)
+theorem dyk_invariant (eps : K) (P1 P2 : Nat → Vec K N → Vec K N) (maxIter : Nat) (x0 : Vec K N)
     (o : Out K N) (h : run eps P1 P2 maxIter x0 = some o) :
     ∀ rec ∈ o.recs, rec.prev.total = x0 ∧ rec.next.total = x0 := by
   unfold run at h
@@ -55,7 +63,7 @@ theorem dyk_invariant_partial (eps : K) (P1 P2 : Nat → Vec K N → Vec K N) (m
 /-- C05.6 `history_consistent` (a): every history record is one sweep of the loop body applied to the recorded previous
 state, with the recorded `y`, and its `error_value` is `None` for sweep 0 and the Birgin–Raydan value
 `Σ (p_k − p_{k+1})² + (q_k − q_{k+1})²` of the recorded entries otherwise (the `k ≥ 1` guard). -/
-theorem dyk_history_steps_partial (eps : K) (P1 P2 : Nat → Vec K N → Vec K N) (maxIter : Nat) (x0 : Vec K N)
+theorem dyk_history_steps (eps : K) (P1 P2 : Nat → Vec K N → Vec K N) (maxIter : Nat) (x0 : Vec K N)
     (o : Out K N) (h : run eps P1 P2 maxIter x0 = some o) :
     ∀ rec ∈ o.recs, rec.next = (sweep (P1 rec.k) (P2 rec.k) rec.prev).1 ∧
       rec.y = (sweep (P1 rec.k) (P2 rec.k) rec.prev).2 ∧
@@ -74,7 +82,7 @@ theorem dyk_history_steps_partial (eps : K) (P1 P2 : Nat → Vec K N → Vec K N
 index, there is one record per sweep (so the lists `p,q,x,y` have `k+2` entries and `error_value` has `k+1`), the loop
 never exceeds `max_iteration`, the warning is printed exactly when the last permitted sweep was executed, the loop ends
 early only when the stopping value is below `eps`, and no earlier record had a stopping value below `eps`. -/
-theorem dyk_history_returned_partial (eps : K) (P1 P2 : Nat → Vec K N → Vec K N) (maxIter : Nat) (x0 : Vec K N)
+theorem dyk_history_returned (eps : K) (P1 P2 : Nat → Vec K N → Vec K N) (maxIter : Nat) (x0 : Vec K N)
     (o : Out K N) (h : run eps P1 P2 maxIter x0 = some o) :
     (∃ rec rest, o.recs = rec :: rest ∧ o.x = rec.next.x ∧ o.k = rec.k ∧
         (o.k + 1 < maxIter → ∃ e, rec.err = some e ∧ e < eps) ∧
@@ -102,7 +110,9 @@ theorem dyk_history_returned_partial (eps : K) (P1 P2 : Nat → Vec K N → Vec 
     · rw [h3]; omega
     · rw [h6, h3]; omega
 
-/-- `max_iteration = 0` is the only input on which the routine fails (`k` is unbound after an empty loop). -/
+/-- within the modelled loop `max_iteration = 0` is the only failing input (`k` is unbound after an empty loop; sampled by the
+correspondence).  Failures of the real routine outside the loop logic — `ValueError` of the inequality projection (C04 guard),
+configuration mismatches in `__add__` — are not part of this model. -/
 theorem dyk_run_none_iff (eps : K) (P1 P2 : Nat → Vec K N → Vec K N) (maxIter : Nat) (x0 : Vec K N) :
     run eps P1 P2 maxIter x0 = none ↔ maxIter = 0 := by
   unfold run; split <;> simp_all
@@ -159,15 +169,18 @@ theorem dyk_fixed_is_projection (A B : Vec K N → Prop) (P1 P2 : Vec K N → Ve
   rw [e]
   exact add_nonpos (hA.2 z hzA) (hB.2 z hzB)
 
-/-- C05.3 hence `x` is the nearest point of `A ∩ B` to `x_0` (Euclidean norm of the stacked parameters). -/
-theorem dyk_fixed_nearest (A B : Vec K N → Prop) (P1 P2 : Vec K N → Vec K N)
+/-- C05.3 hence `x` is the nearest point of `A ∩ B` to `x_0` (Euclidean norm of the stacked parameters).
+`_partial`: only at an EXACT fixed point (stopping value 0); a real run stops at a value `< eps` — for that see
+`dyk_iter_approx_vi` / `dyk_returned_approx_vi_partial`. -/
+theorem dyk_fixed_nearest_partial (A B : Vec K N → Prop) (P1 P2 : Vec K N → Vec K N)
     (h1 : IsProj A P1) (h2 : IsProj B P2) (s : St K N) (hfix : (sweep P1 P2 s).1 = s)
     (x0 : Vec K N) (ht : s.total = x0) (z : Vec K N) (hzA : A z) (hzB : B z) :
     sqd1 x0 s.x ≤ sqd1 x0 z :=
   nearest1 x0 s.x z ((dyk_fixed_is_projection A B P1 P2 h1 h2 s hfix x0 ht).2.2 z hzA hzB)
 
-/-- C05.3 `dyk_order_independent`: the fixed points of the two projection orders have the same `x`. -/
-theorem dyk_order_independent (A B : Vec K N → Prop) (P1 P2 : Vec K N → Vec K N)
+/-- C05.3 `dyk_order_independent_partial`: the fixed points of the two projection orders have the same `x`.
+`_partial`: exact fixed points only; for stopped iterates order independence is checked by the oracle (to g(eps)). -/
+theorem dyk_order_independent_partial (A B : Vec K N → Prop) (P1 P2 : Vec K N → Vec K N)
     (h1 : IsProj A P1) (h2 : IsProj B P2) (s s' : St K N)
     (hfix : (sweep P1 P2 s).1 = s) (hfix' : (sweep P2 P1 s').1 = s')
     (x0 : Vec K N) (ht : s.total = x0) (ht' : s'.total = x0) : s.x = s'.x := by
@@ -319,7 +332,7 @@ theorem dyk_terminates (A B : Vec K N → Prop) (P1 P2 : Nat → Vec K N → Vec
     · exact h
     · omega
   refine ⟨by omega, hstop, ?_⟩
-  have hw := (dyk_history_returned_partial eps P1 P2 maxIter x0 o h).2.2.2.2.2
+  have hw := (dyk_history_returned eps P1 P2 maxIter x0 o h).2.2.2.2.2
   cases hwv : o.warned with
   | false => rfl
   | true => have := hw.1 hwv; omega
@@ -351,6 +364,189 @@ theorem dyk_returned_physical (A B : Vec K N → Prop) (P1 P2 : Nat → Vec K N 
   rw [hx, e]
   exact ⟨hg.2.1, _, hg.1, lt_of_le_of_lt hg.2.2 hs.2⟩
 
+/-- the invariant along the iterates: `x_k + p_k + q_k = x₀` -/
+theorem iter_total (P1 P2 : Nat → Vec K N → Vec K N) (x0 : Vec K N) (k : Nat) :
+    (iterSY P1 P2 x0 k).1.total = x0 := by
+  induction k with
+  | zero => exact total_init x0
+  | succ k ih => show (sweep (P1 k) (P2 k) (iterSY P1 P2 x0 k).1).1.total = x0; rw [dyk_sweep_invariant]; exact ih
+
+/-- the Gate equality projection on the flat vector (`calc_proj_eq_constraint_with_var(…, False)`) is the metric projection
+onto the trace-preserving set -/
+theorem isProj_gate_eq (n : Nat) : IsProj (GateFlatFeas (K := K) n) (peqGate (n := n)) := by
+  intro u
+  have hpos : ∀ k : Fin (n * n), 0 < n := fun k => pos_of_lt_mul k.isLt
+  refine ⟨?_, fun z hz => ?_⟩
+  · intro k hk
+    rw [peqGate_get]
+    by_cases h0 : k.val = 0
+    · simp [h0]
+    · simp [h0, hk]
+  · apply le_of_eq
+    unfold ip1
+    apply Finset.sum_eq_zero; intro k _
+    simp only [sub_get, peqGate_get]
+    by_cases hk : k.val < n
+    · have hz' := hz k hk
+      by_cases h0 : k.val = 0
+      · simp [h0, hz'] 
+      · simp [h0, hk, hz']
+    · have h0 : k.val ≠ 0 := fun h => hk (by rw [h]; exact hpos k)
+      simp [h0, hk]
+
+/-- C05.3 quantitative: at EVERY iterate and for every point `z` of the intersection
+`⟪x₀ − x_k, z − x_k⟫ ≤ ⟪p_k, y_k − x_k⟫` — the defect of the nearest-point inequality is controlled by the gap `y_k − x_k` -/
+theorem dyk_iter_approx_vi (A B : Vec K N → Prop) (P1 P2 : Nat → Vec K N → Vec K N)
+    (h1 : ∀ k, IsProj A (P1 k)) (h2 : ∀ k, IsProj B (P2 k)) (x0 z : Vec K N) (hzA : A z) (hzB : B z) (k : Nat) :
+    ip1 (x0.sub (iterSY P1 P2 x0 k).1.x) (z.sub (iterSY P1 P2 x0 k).1.x)
+      ≤ ip1 (iterSY P1 P2 x0 k).1.p ((iterSY P1 P2 x0 k).2.sub (iterSY P1 P2 x0 k).1.x) := by
+  obtain ⟨hp, hq, _⟩ := dyk_lyapunov_iter A B P1 P2 h1 h2 x0 z k
+  have a := hp z hzA
+  have b := hq z hzB
+  have t := iter_total P1 P2 x0 k
+  generalize (iterSY P1 P2 x0 k) = sy at *
+  subst t
+  have e : ip1 (sy.1.total.sub sy.1.x) (z.sub sy.1.x)
+      = ip1 sy.1.p (z.sub sy.2) + ip1 sy.1.p (sy.2.sub sy.1.x) + ip1 sy.1.q (z.sub sy.1.x) := by
+    simp only [ip1, St.total, sub_get, add_get, ← Finset.sum_add_distrib]
+    apply Finset.sum_congr rfl; intro i _; ring
+  rw [e]; linarith
+
+/-- C05 congruence (bridge to the executed loop): a run depends on the two projection families only through their values at
+the arguments actually passed.  The driver replays the real run with the per-sweep CONSTANT `fun _ => (result of the tapped
+eigh)` in place of the inequality projection; whenever that constant equals a genuine projection `P2' k` at the argument of
+sweep `k` (exact eigh contract, C04), the executed run IS the run of `P1' P2'`, to which all `IsProj` theorems apply. -/
+theorem dyk_run_congr (eps : K) (P1 P2 P1' P2' : Nat → Vec K N → Vec K N) (maxIter : Nat) (x0 : Vec K N)
+    (ha1 : ∀ k, P1 k (arg1 P1' P2' x0 k) = P1' k (arg1 P1' P2' x0 k))
+    (ha2 : ∀ k, P2 k (arg2 P1' P2' x0 k) = P2' k (arg2 P1' P2' x0 k)) :
+    run eps P1 P2 maxIter x0 = run eps P1' P2' maxIter x0 := by
+  have hs : ∀ k, sweep (P1 k) (P2 k) (iterSY P1' P2' x0 k).1 = sweep (P1' k) (P2' k) (iterSY P1' P2' x0 k).1 := by
+    intro k
+    have e1 := ha1 k
+    have e2 := ha2 k
+    unfold arg2 at e2
+    unfold arg1 at e1 e2
+    simp only [sweep, e1, e2]
+  unfold run
+  split
+  · rfl
+  · have := loop_congr eps P1 P2 P1' P2' x0 hs maxIter 0 []
+    exact congrArg some this
+
+/-- C05.6 `history_consistent` (c): the five lists of the history dict are exactly the sequences of iterates
+`x_0 … x_{k+1}`, `p_0 …`, `q_0 …`, `None, y_1 … y_{k+1}`, `None, err_1 … err_k` (so records chain, start at `(x₀,0,0)`, and the
+recorded `error_value`s are the stopping values of consecutive list entries). -/
+theorem dyk_history_lists (eps : K) (P1 P2 : Nat → Vec K N → Vec K N) (maxIter : Nat) (x0 : Vec K N)
+    (o : Out K N) (h : run eps P1 P2 maxIter x0 = some o) :
+    histX x0 o = (List.range (o.k + 2)).map (fun j => (iterSY P1 P2 x0 j).1.x) ∧
+    histP o = (List.range (o.k + 2)).map (fun j => (iterSY P1 P2 x0 j).1.p) ∧
+    histQ o = (List.range (o.k + 2)).map (fun j => (iterSY P1 P2 x0 j).1.q) ∧
+    histY o = none :: (List.range (o.k + 1)).map (fun j => some (iterSY P1 P2 x0 (j + 1)).2) ∧
+    histE o = (List.range (o.k + 1)).map (fun j => errOpt P1 P2 x0 j) := by
+  unfold run at h
+  split at h
+  · cases h
+  · injection h with h; subst h
+    obtain ⟨r, rfl⟩ : ∃ r, maxIter = r + 1 := ⟨maxIter - 1, by omega⟩
+    have e0 : (⟨x0, Vec.zero, Vec.zero⟩ : St K N) = (iterSY P1 P2 x0 0).1 := rfl
+    rw [e0]
+    have hr := loop_recs_exact eps P1 P2 x0 r 0 []
+    set o := loop eps P1 P2 (r + 1) 0 (iterSY P1 P2 x0 0).1 [] with ho
+    have hrev : o.recs.reverse = (List.range (o.k + 1)).map fun j => recOf P1 P2 j (iterSY P1 P2 x0 j).1 := by
+      rw [hr]; simp [List.range_eq_range']
+    have hsucc : ∀ (f : Nat → Vec K N), (List.range (o.k + 2)).map f = f 0 :: (List.range (o.k + 1)).map (fun j => f (j + 1)) := by
+      intro f; rw [List.range_succ_eq_map]; simp [List.map_map, Function.comp_def]
+    refine ⟨?_, ?_, ?_, ?_, ?_⟩
+    · rw [histX, hrev, hsucc]; simp [List.map_map, Function.comp_def, recOf, iterSY]
+    · rw [histP, hrev, hsucc]; simp [List.map_map, Function.comp_def, recOf, iterSY]
+    · rw [histQ, hrev, hsucc]; simp [List.map_map, Function.comp_def, recOf, iterSY]
+    · rw [histY, hrev]; simp [List.map_map, Function.comp_def, recOf, iterSY]
+    · rw [histE, hrev]; simp [List.map_map, Function.comp_def, recOf_iter_err]
+
+/-- C05.3 quantitative, at the returned point (`_partial`: a bound on the defect of the variational inequality, not on the distance
+to the nearest point): when the routine stops by its criterion, for every physical `z`
+`⟪x₀ − x, z − x⟫ ≤ g` with `g² ≤ ‖p‖²·eps`, `p` the first correction at the stop — the returned point satisfies the nearest-point
+inequality up to `‖p‖·√eps`. -/
+theorem dyk_returned_approx_vi_partial (A B : Vec K N → Prop) (P1 P2 : Nat → Vec K N → Vec K N)
+    (h1 : ∀ k, IsProj A (P1 k)) (h2 : ∀ k, IsProj B (P2 k)) (eps : K) (maxIter : Nat) (x0 : Vec K N)
+    (o : Out K N) (h : run eps P1 P2 maxIter x0 = some o) (hs : StopAt eps P1 P2 x0 o.k)
+    (z : Vec K N) (hzA : A z) (hzB : B z) :
+    ∃ g, ip1 (x0.sub o.x) (z.sub o.x) ≤ g ∧
+      g * g ≤ ip1 (iterSY P1 P2 x0 (o.k + 1)).1.p (iterSY P1 P2 x0 (o.k + 1)).1.p * eps := by
+  obtain ⟨hx, _, _, _⟩ := dyk_run_returns_min eps P1 P2 maxIter x0 o h
+  have hv := dyk_iter_approx_vi A B P1 P2 h1 h2 x0 z hzA hzB (o.k + 1)
+  have hg := dyk_sweep_gap A B (P1 o.k) (P2 o.k) (h1 o.k) (h2 o.k) (iterSY P1 P2 x0 o.k).1
+  have e : (iterSY P1 P2 x0 (o.k + 1)) = sweep (P1 o.k) (P2 o.k) (iterSY P1 P2 x0 o.k).1 := rfl
+  refine ⟨ip1 (iterSY P1 P2 x0 (o.k + 1)).1.p ((iterSY P1 P2 x0 (o.k + 1)).2.sub (iterSY P1 P2 x0 (o.k + 1)).1.x),
+    by rw [hx]; exact hv, ?_⟩
+  have cs := ip1_sq_le (iterSY P1 P2 x0 (o.k + 1)).1.p ((iterSY P1 P2 x0 (o.k + 1)).2.sub (iterSY P1 P2 x0 (o.k + 1)).1.x)
+  have hsq : ip1 ((iterSY P1 P2 x0 (o.k + 1)).2.sub (iterSY P1 P2 x0 (o.k + 1)).1.x)
+      ((iterSY P1 P2 x0 (o.k + 1)).2.sub (iterSY P1 P2 x0 (o.k + 1)).1.x) < eps := by
+    have : ip1 ((iterSY P1 P2 x0 (o.k + 1)).2.sub (iterSY P1 P2 x0 (o.k + 1)).1.x)
+        ((iterSY P1 P2 x0 (o.k + 1)).2.sub (iterSY P1 P2 x0 (o.k + 1)).1.x)
+        = sqd1 (iterSY P1 P2 x0 (o.k + 1)).1.x (iterSY P1 P2 x0 (o.k + 1)).2 := by
+      rw [sqd1_eq]; simp only [ip1, sub_get]; apply Finset.sum_congr rfl; intro i _; ring
+    rw [this, e]
+    exact lt_of_le_of_lt hg.2.2 hs.2
+  have hpp : 0 ≤ ip1 (iterSY P1 P2 x0 (o.k + 1)).1.p (iterSY P1 P2 x0 (o.k + 1)).1.p :=
+    Finset.sum_nonneg fun i _ => mul_self_nonneg _
+  calc _ ≤ _ := cs
+    _ ≤ _ := mul_le_mul_of_nonneg_left hsq.le hpp
+
+section psd
+open Matrix QM.Psd
+open scoped ComplexOrder
+variable {d : Nat}
+
+/-- C05/H1 an `IsProj` instance for the C04 inequality projection over ℝ: for an orthonormal Hermitian basis of `d²` elements
+`psdProj` is the metric projection onto the parameter vectors with PSD operator. -/
+theorem isProj_psd (B : Vector (Mat ℂ d d) (d * d)) (hB : OrthoN (basisM B)) (hH : HermB B) :
+    IsProj (fun v : Vec ℝ (d * d) => (matOfVec B v).toM.PosSemidef) (psdProj B hB hH) := by
+  intro u
+  obtain ⟨hp, hspan⟩ := psdProj_spec B hB hH u
+  obtain ⟨hU, hA⟩ := eig_contract B hH u
+  exact ⟨projIneqCore_feasible_partial B _ _ _ hspan,
+    fun z hz => projIneqCore_vi_partial B hB u _ _ hU hA _ hp hspan z hz⟩
+
+/-- whatever exact eigen-decomposition `eigh` returns, the model's result is that projection -/
+theorem projIneqCore_eq_psdProj (B : Vector (Mat ℂ d d) (d * d)) (hB : OrthoN (basisM B)) (hH : HermB B)
+    (x : Vec ℝ (d * d)) (lam : Vec ℝ d) (U : Mat ℂ d d) (hU : U.toMᴴ * U.toM = 1) (hA : matOfVec B x = rebuild U lam)
+    (p : Vec ℝ (d * d)) (hp : projIneqCore B (0 : ℝ) lam U = .ok p) : p = psdProj B hB hH x := by
+  obtain ⟨p0, hp0, hspan⟩ := projIneqCore_ok B hB hH lam U
+  rw [hp] at hp0; injection hp0 with e; subst e
+  have hP := isProj_psd B hB hH x
+  have v1 := projIneqCore_vi_partial B hB x lam U hU hA p hp hspan _ hP.1
+  have v2 := hP.2 p (projIneqCore_feasible_partial B lam U p hspan)
+  exact eq_of_two_vi x p _ v1 v2
+
+/-- C05/H1 the executed loop IS a Dykstra run of genuine projections: the driver replays a run with the inequality projection
+replaced by per-sweep constants `c k` computed from the tapped `eigh` results; if every tapped result is an exact
+eigen-decomposition of the operator of the argument of its sweep, that run equals the run with the genuine projection `psdProj`
+(order `"eq_ineq"`; single-operator types State, and Gate through the Choi basis), so every `IsProj` theorem above applies to it. -/
+theorem dyk_run_tapped (B : Vector (Mat ℂ d d) (d * d)) (hB : OrthoN (basisM B)) (hH : HermB B)
+    (eps : ℝ) (Peq : Vec ℝ (d * d) → Vec ℝ (d * d)) (c : Nat → Vec ℝ (d * d)) (maxIter : Nat) (x0 : Vec ℝ (d * d))
+    (hc : ∀ k, ∃ lam U, U.toMᴴ * U.toM = 1 ∧
+      matOfVec B (arg2 (fun _ => Peq) (fun _ => psdProj B hB hH) x0 k) = rebuild U lam ∧
+      projIneqCore B (0 : ℝ) lam U = .ok (c k)) :
+    run eps (fun _ => Peq) (fun k _ => c k) maxIter x0 = run eps (fun _ => Peq) (fun _ => psdProj B hB hH) maxIter x0 := by
+  apply dyk_run_congr
+  · intro k; rfl
+  · intro k
+    obtain ⟨lam, U, hU, hA, hp⟩ := hc k
+    exact projIneqCore_eq_psdProj B hB hH _ lam U hU hA (c k) hp
+
+-- non-vacuity of `dyk_run_tapped` on the real qubit basis: constants built from exact eigen-decompositions satisfy its hypothesis
+open QM.Psd in
+example (Peq : Vec ℝ (2 * 2) → Vec ℝ (2 * 2)) (x0 : Vec ℝ (2 * 2)) :
+    ∃ c : Nat → Vec ℝ (2 * 2), ∀ k, ∃ lam U, U.toMᴴ * U.toM = 1 ∧
+      matOfVec (pauliB : Vector (Mat ℂ 2 2) (2 * 2)) (arg2 (fun _ => Peq) (fun _ => psdProj pauliB pauli_orthoN pauli_hermB) x0 k)
+        = rebuild U lam ∧ projIneqCore (pauliB : Vector (Mat ℂ 2 2) (2 * 2)) (0 : ℝ) lam U = .ok (c k) :=
+  ⟨fun k => psdProj pauliB pauli_orthoN pauli_hermB (arg2 (fun _ => Peq) (fun _ => psdProj pauliB pauli_orthoN pauli_hermB) x0 k),
+   fun k => ⟨_, _, (eig_contract pauliB pauli_hermB _).1, (eig_contract pauliB pauli_hermB _).2,
+     (psdProj_spec pauliB pauli_orthoN pauli_hermB _).1⟩⟩
+
+end psd
+
 theorem isProj_univ : IsProj (fun _ : Vec K N => True) id := by
   intro u; refine ⟨trivial, fun z _ => ?_⟩
   simp [ip1]
@@ -375,7 +571,10 @@ theorem gen_stop_rule (eps e : K) (s s' : St K N) (P1 P2 : Nat → Vec K N → V
     (recOf P1 P2 k s).err = (if QGen.C05.guardFrom ≤ k then some (errVal s (sweep (P1 k) (P2 k) s).1) else none) ∧
     QGen.C05.branchLiteral = "eq_ineq" := ⟨rfl, rfl, rfl, rfl⟩
 
-/-- C05.5 `dyk_obj_eq_var`: in the model the object-level and the variable-level routine are the same loop on the
+/-- C05.5 `dyk_obj_eq_var` is NOT a theorem with content here: the model has one loop for both levels (the translator maps the
+object-level and the `_with_var` sweep bodies to the same symbols, `gen_sweep_bodies` proves them equal), and the conversions
+`convert_var_to_stacked_vector` / `convert_stacked_vector_to_var` are not modelled; agreement of the two levels on the real code
+is established by the oracle and the correspondence only.  What is stated below is definitional: on the
 stacked vector (their constraint projections coincide by QProps.C04 `*_var_eq_obj_F`); for the two orders the loop only
 swaps the roles of the projections. -/
 theorem dyk_runMode_orders (eps : K) (Peq : Vec K N → Vec K N) (Pineq : Nat → Vec K N → Vec K N)
@@ -395,9 +594,48 @@ example : ∃ j, 1 ≤ j ∧ j ≤ 8 ∧ errAt (fun _ => peqState (n := 2) (1/2 
   dyk_stop_exists (State.Feas (1/2)) (fun _ => True) _ _ (fun _ => isProj_state_eq _) (fun _ => isProj_univ)
     #v[3, -1] #v[1/2, 0] (by intro i hi; fin_cases i <;> simp_all [Vec.get]) trivial 1 8 (by decide +kernel)
 
--- non-vacuity: a concrete run of the model (K = ℚ, N = 2): P1 = State equality projection with s = 1/2,
--- P2 = clipping of the second coordinate at 0; input (3, −1)
-example : (run (1/100 : Rat) (fun _ => peqState (n := 2) (1/2)) (fun _ v => Vec.ofFn fun i => if i.val = 1 ∧ v.get i < 0 then 0 else v.get i)
-    10 (#v[3, -1] : Vec Rat 2)).map (fun o => (o.x, o.k)) = some (#v[1/2, 0], 1) := by decide +kernel
+-- non-degenerate instance (two genuinely different sets): A = trace-one states (s = 1/2) with P1 its projection, B = {v | 0 ≤ v₁}
+-- with P2 = clipping (`isProj_clip`); x₀ = (3, −1), z = (1/2, 0), eps = 1/100, n = 800, max_iteration = 1000:
+-- `dyk_terminates` and `dyk_returned_physical`
+example (o : Out Rat 2)
+    (h : run (1/100 : Rat) (fun _ => peqState (n := 2) (1/2)) (fun _ => clip1) 1000 (#v[3, -1] : Vec Rat 2) = some o) :
+    o.k ≤ 800 ∧ o.warned = false ∧ (0 ≤ o.x.get 1) ∧ ∃ y, State.Feas (1/2) y ∧ sqd1 o.x y < 1/100 := by
+  have t := dyk_terminates (State.Feas (1/2)) (fun v : Vec Rat 2 => 0 ≤ v.get 1) (fun _ => peqState (n := 2) (1/2)) (fun _ => clip1)
+    (fun _ => isProj_state_eq _) (fun _ => isProj_clip) #v[3, -1] #v[1/2, 0]
+    (by intro i hi; fin_cases i <;> simp_all [Vec.get]) (by simp [Vec.get]) (1/100) 800 (by decide +kernel) 1000 (by omega) o h
+  have r := dyk_returned_physical (State.Feas (1/2)) (fun v : Vec Rat 2 => 0 ≤ v.get 1) (fun _ => peqState (n := 2) (1/2)) (fun _ => clip1)
+    (fun _ => isProj_state_eq _) (fun _ => isProj_clip) (1/100) 1000 #v[3, -1] o h t.2.1
+  exact ⟨t.1, t.2.2, r.1, r.2⟩
+
+-- `dyk_stop_zero_fixed`, `dyk_fixed_is_projection` / `dyk_fixed_nearest_partial`, `dyk_order_independent_partial` on that fixed point
+example : errVal exFix (sweep (peqState (n := 2) (1/2 : Rat)) clip1 exFix).1 = 0 := by decide +kernel
+example (z : Vec Rat 2) (hzA : State.Feas (1/2) z) (hzB : 0 ≤ z.get 1) : sqd1 (#v[3, -1] : Vec Rat 2) exFix.x ≤ sqd1 #v[3, -1] z :=
+  dyk_fixed_nearest_partial (State.Feas (1/2)) (fun v : Vec Rat 2 => 0 ≤ v.get 1) _ _ (isProj_state_eq _) isProj_clip exFix
+    exFix_fixed #v[3, -1] (by decide +kernel) z hzA hzB
+example : exFix.x = exFix'.x :=
+  dyk_order_independent_partial (State.Feas (1/2)) (fun v : Vec Rat 2 => 0 ≤ v.get 1) _ _ (isProj_state_eq _) isProj_clip
+    exFix exFix' exFix_fixed exFix'_fixed #v[3, -1] (by decide +kernel) (by decide +kernel)
+-- `dyk_fix_physical`: the physical input (1/2, 2) is returned after two sweeps
+example : ∃ o, run (1/100 : Rat) (fun _ => peqState (n := 2) (1/2)) (fun _ => clip1) 5 (#v[1/2, 2] : Vec Rat 2) = some o ∧
+    o.x = #v[1/2, 2] ∧ o.k = 1 ∧ o.recs.length = 2 :=
+  dyk_fix_physical (1/100) (by norm_num) _ _ #v[1/2, 2] (fun _ => by decide +kernel) (fun _ => by decide +kernel) 5 (by omega)
+-- the loop as executed on these two (commuting) sets: criterion stop at k = 1 with stopping value exactly 0
+example : (run (1/100 : Rat) (fun _ => peqState (n := 2) (1/2)) (fun _ => clip1) 10 (#v[3, -1] : Vec Rat 2)).map
+    (fun o => (o.x, o.k, o.warned)) = some (#v[1/2, 0], 1, false) := by decide +kernel
+-- max-iteration branch (max_iteration = 1: the criterion is not evaluated at k = 0, the warning flag is set)
+example : (run (1/100 : Rat) (fun _ => peqState (n := 2) (1/2)) (fun _ => clip1) 1 (#v[3, -1] : Vec Rat 2)).map
+    (fun o => (o.k, o.warned)) = some (0, true) := by decide +kernel
+
+-- non-commuting sets (trace-one line, half plane v₀ ≤ v₁ with `isProj_half`): the loop CONTINUES over several sweeps and stops by
+-- the criterion at k = 5; `dyk_terminates` bounds the sweep count a priori (z = (1/2,1/2), ‖x₀−z‖² = 17/2 < 860·eps)
+example : (run (1/100 : Rat) (fun _ => peqState (n := 2) (1/2)) (fun _ => projH) 20 (#v[3, -1] : Vec Rat 2)).map
+    (fun o => (o.k, o.warned, decide (o.x.get 0 ≤ o.x.get 1))) = some (5, false, true) := by decide +kernel
+example (o : Out Rat 2)
+    (h : run (1/100 : Rat) (fun _ => peqState (n := 2) (1/2)) (fun _ => projH) 1000 (#v[3, -1] : Vec Rat 2) = some o) :
+    o.k ≤ 860 ∧ o.warned = false :=
+  let t := dyk_terminates (State.Feas (1/2)) (fun v : Vec Rat 2 => v.get 0 ≤ v.get 1) (fun _ => peqState (n := 2) (1/2)) (fun _ => projH)
+    (fun _ => isProj_state_eq _) (fun _ => isProj_half) #v[3, -1] #v[1/2, 1/2]
+    (by intro i hi; fin_cases i <;> simp_all [Vec.get]) (by simp [Vec.get]) (1/100) 860 (by decide +kernel) 1000 (by omega) o h
+  ⟨t.1, t.2.2⟩
 
 end QM.C05
